@@ -29,8 +29,8 @@ def run(ctx, ss):
         ctx.guard(r, f, ss)
     from .c01 import details_fields
     ctx.guard("C16.9", details_fields, ss, "C16.9")
-    from .shared import memo_discipline
-    ctx.guard("C16.7", memo_discipline, ss, "C16.7", ["dec/dec.py:DecFileParser.print_decay_modes"], "a printed table")
+    from .shared import reading_path
+    ctx.guard("C16.7", reading_path, ss, "C16.7", ["DecFileParser.print_decay_modes"], "a printed table")
     # C16.10 'values unchanged': the branching fraction written in the file is lexed as ONE number in every notation float() reads (C01.2 shared)
     from .c01 import c01_2
     from .c05 import _as
